@@ -263,6 +263,12 @@ let rec nth n0 l default =
             | [] -> default
             | _ :: t -> nth m t default)
 
+(** val rev : 'a1 list -> 'a1 list **)
+
+let rec rev = function
+| [] -> []
+| x :: l' -> app (rev l') (x :: [])
+
 (** val concat : 'a1 list list -> 'a1 list **)
 
 let rec concat = function
@@ -281,6 +287,18 @@ let rec fold_left f l a0 =
   match l with
   | [] -> a0
   | b :: t -> fold_left f t (f a0 b)
+
+(** val existsb : ('a1 -> bool) -> 'a1 list -> bool **)
+
+let rec existsb f = function
+| [] -> false
+| a :: l0 -> (||) (f a) (existsb f l0)
+
+(** val forallb : ('a1 -> bool) -> 'a1 list -> bool **)
+
+let rec forallb f = function
+| [] -> true
+| a :: l0 -> (&&) (f a) (forallb f l0)
 
 (** val filter : ('a1 -> bool) -> 'a1 list -> 'a1 list **)
 
@@ -302,7 +320,13 @@ let rec combine l l' =
 
 let rec seq start = function
 | O -> []
-| S len0 -> start :: (seq (S start) len0)
+| S len1 -> start :: (seq (S start) len1)
+
+(** val repeat : 'a1 -> nat -> 'a1 list **)
+
+let rec repeat x = function
+| O -> []
+| S k -> x :: (repeat x k)
 
 (** val ex_keep :
     (((((nat * n) * z) * z list) * z option) * positive) * bool **)
@@ -561,3 +585,529 @@ let analyse c =
      res_cls =
      (map (fun p0 -> walk c mask (fst p0) (snd p0)) (combine ins nss)) }
    | None -> None)
+
+type nref = nat * nat
+
+type stmt =
+| Skip
+| Call
+| Ref of nat * nat
+| Asg of nat * nat
+| Del of nat * nat * bool
+| Seq of stmt * stmt
+| If of nref list * stmt * bool * stmt
+| Loop of bool * nref list * nref list * stmt * bool * stmt
+| Try of stmt * bool * stmt * handlers
+| TryFin of stmt * stmt * stmt
+| Break
+| Continue
+| Return
+| Raise
+and handlers =
+| HNil
+| HCons of nref list * bool * nat * nat * stmt * handlers
+
+type lstat =
+| LRef of nat * nat
+| LAsg of nat * nat
+| LDel of nat * nat
+
+type excd = { x_entry : nat; x_fin : (nat * (nat * nat) option) option }
+
+type loopd = { l_next : nat; l_loop : nat; l_excs : excd list }
+
+type bst = { nb : nat; sts : (nat * lstat) list;
+             eds : ((nat * nat) * nat) list; cur : nat option;
+             loops : loopd list; excs : excd list }
+
+(** val set_cur : nat option -> bst -> bst **)
+
+let set_cur c st =
+  { nb = st.nb; sts = st.sts; eds = st.eds; cur = c; loops = st.loops; excs =
+    st.excs }
+
+(** val set_loops : loopd list -> bst -> bst **)
+
+let set_loops l st =
+  { nb = st.nb; sts = st.sts; eds = st.eds; cur = st.cur; loops = l; excs =
+    st.excs }
+
+(** val set_excs : excd list -> bst -> bst **)
+
+let set_excs x st =
+  { nb = st.nb; sts = st.sts; eds = st.eds; cur = st.cur; loops = st.loops;
+    excs = x }
+
+(** val len : bst -> nat -> nat **)
+
+let len st b =
+  length (filter (fun p -> Nat.eqb (fst p) b) st.sts)
+
+(** val add_edge_k : nat -> nat -> nat -> bst -> bst **)
+
+let add_edge_k u k v st =
+  { nb = st.nb; sts = st.sts; eds = (((u, k), v) :: st.eds); cur = st.cur;
+    loops = st.loops; excs = st.excs }
+
+(** val add_edge : nat -> nat -> bst -> bst **)
+
+let add_edge u v st =
+  add_edge_k u (len st u) v st
+
+(** val add_edge_o : nat option -> nat -> bst -> bst **)
+
+let add_edge_o u v st =
+  match u with
+  | Some u0 -> add_edge u0 v st
+  | None -> st
+
+(** val link_cur : nat -> bst -> bst **)
+
+let link_cur v st =
+  add_edge_o st.cur v st
+
+(** val newblock : bst -> bst **)
+
+let newblock st =
+  { nb = (S st.nb); sts = st.sts; eds = st.eds; cur = st.cur; loops =
+    st.loops; excs = st.excs }
+
+(** val nextblock_from : nat option -> bst -> bst **)
+
+let nextblock_from p st =
+  let b = st.nb in
+  let st1 = newblock st in
+  let st2 = match p with
+            | Some u -> add_edge u b st1
+            | None -> link_cur b st1
+  in
+  set_cur (Some b) st2
+
+(** val nextblock : bst -> bst **)
+
+let nextblock st =
+  nextblock_from None st
+
+(** val append : lstat -> bst -> bst **)
+
+let append s st =
+  match st.cur with
+  | Some b ->
+    { nb = st.nb; sts = ((b, s) :: st.sts); eds = st.eds; cur = st.cur;
+      loops = st.loops; excs = st.excs }
+  | None -> st
+
+(** val exc_edge : bst -> bst **)
+
+let exc_edge st =
+  match st.cur with
+  | Some b ->
+    (match st.excs with
+     | [] -> st
+     | x :: _ -> nextblock (add_edge b x.x_entry st))
+  | None -> st
+
+(** val v_ref : nat -> nat -> bst -> bst **)
+
+let v_ref l e st =
+  append (LRef (l, e)) st
+
+(** val v_asg : nat -> nat -> bst -> bst **)
+
+let v_asg l e st =
+  match st.cur with
+  | Some _ -> exc_edge (append (LAsg (l, e)) (exc_edge st))
+  | None -> st
+
+(** val v_del : nat -> nat -> bool -> bst -> bst **)
+
+let v_del l e ign st =
+  match st.cur with
+  | Some _ ->
+    exc_edge
+      (append (LDel (l, e)) (if ign then st else append (LRef (l, e)) st))
+  | None -> st
+
+(** val refs : nref list -> bst -> bst **)
+
+let refs c st =
+  fold_left (fun st0 r -> v_ref (fst r) (snd r) st0) c st
+
+(** val asgs : nref list -> bst -> bst **)
+
+let asgs c st =
+  fold_left (fun st0 r -> v_asg (fst r) (snd r) st0) c st
+
+(** val has_parents : nat -> bst -> bool **)
+
+let has_parents v st =
+  existsb (fun e -> Nat.eqb (snd e) v) st.eds
+
+(** val cur_if_parents : nat -> bst -> bst **)
+
+let cur_if_parents v st =
+  set_cur (if has_parents v st then Some v else None) st
+
+(** val push_loop : loopd -> bst -> bst **)
+
+let push_loop d st =
+  set_loops (d :: st.loops) st
+
+(** val pop_loop : bst -> bst **)
+
+let pop_loop st =
+  set_loops (tl st.loops) st
+
+(** val push_exc : excd -> bst -> bst **)
+
+let push_exc d st =
+  set_excs (d :: st.excs) st
+
+(** val pop_exc : bst -> bst **)
+
+let pop_exc st =
+  set_excs (tl st.excs) st
+
+(** val push_loop_exc : excd -> bst -> bst **)
+
+let push_loop_exc d st =
+  match st.loops with
+  | [] -> st
+  | l :: r ->
+    set_loops ({ l_next = l.l_next; l_loop = l.l_loop; l_excs =
+      (d :: l.l_excs) } :: r) st
+
+(** val pop_loop_exc : bst -> bst **)
+
+let pop_loop_exc st =
+  match st.loops with
+  | [] -> st
+  | l :: r ->
+    set_loops ({ l_next = l.l_next; l_loop = l.l_loop; l_excs =
+      (tl l.l_excs) } :: r) st
+
+(** val chain_edges : nat -> nat -> excd list -> nat -> bst -> bst **)
+
+let rec chain_edges src k fs t st =
+  match fs with
+  | [] -> add_edge_k src k t st
+  | x :: r ->
+    (match x.x_fin with
+     | Some p ->
+       let (fe, o) = p in
+       (match o with
+        | Some p0 ->
+          let (fxb, kx) = p0 in
+          chain_edges fxb kx r t (add_edge_k src k fe st)
+        | None -> add_edge_k src k fe st)
+     | None -> chain_edges src k r t st)
+
+(** val jump_loop_asis : nat -> nat -> excd list -> nat -> bst -> bst **)
+
+let jump_loop_asis src k fs t st =
+  match fs with
+  | [] -> add_edge_k src k t st
+  | x :: _ ->
+    (match x.x_fin with
+     | Some p ->
+       let (fe, fxo) = p in
+       let st1 = add_edge_k src k fe st in
+       (match fxo with
+        | Some p0 -> let (fxb, kx) = p0 in add_edge_k fxb kx t st1
+        | None -> st1)
+     | None -> add_edge_k src k t st)
+
+(** val first_fin :
+    excd list -> ((nat * (nat * nat) option) * excd list) option **)
+
+let rec first_fin = function
+| [] -> None
+| x :: r -> (match x.x_fin with
+             | Some p -> Some (p, r)
+             | None -> first_fin r)
+
+(** val jump_ret_asis : nat -> nat -> excd list -> bst -> bst **)
+
+let jump_ret_asis src k fs st =
+  match first_fin fs with
+  | Some p ->
+    let (p0, r) = p in
+    let (fe, fxo) = p0 in
+    let st1 = add_edge_k src k fe st in
+    (match fxo with
+     | Some p1 ->
+       let (fxb, kx) = p1 in
+       let t =
+         match first_fin r with
+         | Some p2 -> let (p3, _) = p2 in let (fe2, _) = p3 in fe2
+         | None -> S O
+       in
+       add_edge_k fxb kx t st1
+     | None -> st1)
+  | None -> add_edge_k src k (S O) st
+
+(** val v_break : bool -> bool -> bst -> bst **)
+
+let v_break fx isbrk st =
+  match st.loops with
+  | [] -> st
+  | l :: _ ->
+    (match st.cur with
+     | Some b ->
+       let t = if isbrk then l.l_next else l.l_loop in
+       set_cur None
+         (if fx
+          then chain_edges b (len st b) l.l_excs t st
+          else jump_loop_asis b (len st b) l.l_excs t st)
+     | None -> st)
+
+(** val v_return : bool -> bst -> bst **)
+
+let v_return fx st =
+  match st.cur with
+  | Some b ->
+    set_cur None
+      (if fx
+       then chain_edges b (len st b) st.excs (S O) st
+       else jump_ret_asis b (len st b) st.excs st)
+  | None -> st
+
+(** val v_raise : bst -> bst **)
+
+let v_raise st =
+  match st.cur with
+  | Some b ->
+    set_cur None
+      (match st.excs with
+       | [] -> st
+       | x :: _ -> add_edge b x.x_entry st)
+  | None -> st
+
+(** val visit : bool -> stmt -> bst -> bst **)
+
+let rec visit fx s st =
+  match s with
+  | Ref (l, e) -> v_ref l e st
+  | Asg (l, e) -> v_asg l e st
+  | Del (l, e, ign) -> v_del l e ign st
+  | Seq (a, b) ->
+    let st1 = visit fx a st in
+    (match st1.cur with
+     | Some _ -> visit fx b st1
+     | None -> st1)
+  | If (c, th, hasel, el) ->
+    let n0 = st.nb in
+    let st3 = refs c (nextblock (newblock st)) in
+    let parent = st3.cur in
+    let st6 = link_cur n0 (visit fx th (nextblock st3)) in
+    let st7 =
+      if hasel
+      then link_cur n0 (visit fx el (nextblock_from parent st6))
+      else add_edge_o parent n0 st6
+    in
+    cur_if_parents n0 st7
+  | Loop (isfor, c, tg, body, hasel, el) ->
+    let c0 = st.nb in
+    let n0 = S st.nb in
+    let st4 =
+      refs c
+        (push_loop { l_next = n0; l_loop = c0; l_excs = [] }
+          (newblock (nextblock st)))
+    in
+    let cend = st4.cur in
+    let st5 = nextblock st4 in
+    let st6 = if isfor then nextblock (asgs tg st5) else st5 in
+    let st7 = pop_loop (visit fx body st6) in
+    let st8 =
+      match st7.cur with
+      | Some b ->
+        let s1 = add_edge b c0 st7 in if isfor then s1 else add_edge b n0 s1
+      | None -> st7
+    in
+    let st9 =
+      if hasel
+      then link_cur n0 (visit fx el (nextblock_from cend st8))
+      else add_edge_o cend n0 st8
+    in
+    cur_if_parents n0 st9
+  | Try (body, hasel, el, hs) ->
+    let n0 = st.nb in
+    let e = S (S st.nb) in
+    let st4 =
+      push_exc { x_entry = e; x_fin = None }
+        (newblock (newblock (newblock st)))
+    in
+    let st6 = nextblock (link_cur e (nextblock st4)) in
+    let st7 = pop_exc (visit fx body st6) in
+    let st8 =
+      match st7.cur with
+      | Some _ ->
+        link_cur n0 (if hasel then visit fx el (nextblock st7) else st7)
+      | None -> st7
+    in
+    let (e', st9) = visit_h fx hs n0 e st8 in
+    let st10 =
+      match st9.excs with
+      | [] -> st9
+      | x :: _ -> add_edge e' x.x_entry st9
+    in
+    cur_if_parents n0 st10
+  | TryFin (body, fexc, fnorm) ->
+    let b = st.nb in
+    let eP = S st.nb in
+    let st2 = set_cur (Some eP) (newblock (nextblock st)) in
+    let st2' = if fx then exc_edge st2 else st2 in
+    let st3 = visit fx fexc st2' in
+    let st4 =
+      match st3.cur with
+      | Some b0 ->
+        (match st3.excs with
+         | [] -> st3
+         | x :: _ -> add_edge b0 x.x_entry st3)
+      | None -> st3
+    in
+    let fE = st4.nb in
+    let st6 = visit fx fnorm (set_cur (Some fE) (newblock st4)) in
+    let fexit =
+      match st6.cur with
+      | Some b0 -> Some (b0, (len st6 b0))
+      | None -> None
+    in
+    let d = { x_entry = eP; x_fin = (Some (fE, fexit)) } in
+    let st7 = push_exc d (push_loop_exc d st6) in
+    let st8 = nextblock (add_edge b eP (set_cur (Some b) st7)) in
+    let st9 = pop_loop_exc (pop_exc (visit fx body st8)) in
+    (match st9.cur with
+     | Some b0 ->
+       let s1 = add_edge b0 fE st9 in
+       (match fexit with
+        | Some p ->
+          let (fxb, k) = p in
+          set_cur (Some s1.nb) (add_edge_k fxb k s1.nb (newblock s1))
+        | None -> set_cur None s1)
+     | None -> st9)
+  | Break -> v_break fx true st
+  | Continue -> v_break fx false st
+  | Return -> v_return fx st
+  | Raise -> v_raise st
+  | _ -> st
+
+(** val visit_h : bool -> handlers -> nat -> nat -> bst -> nat * bst **)
+
+and visit_h fx hs n0 e st =
+  match hs with
+  | HNil -> (e, st)
+  | HCons (pat, hastg, tl0, te, hb, rest) ->
+    let st1 = refs pat (set_cur (Some e) st) in
+    let e2 = st1.nb in
+    let st4 = nextblock (add_edge_o st1.cur e2 (newblock st1)) in
+    let st5 = if hastg then v_asg tl0 te st4 else st4 in
+    visit_h fx rest n0 e2 (link_cur n0 (visit fx hb st5))
+
+(** val st_init : nref list -> bst **)
+
+let st_init args =
+  let st =
+    nextblock { nb = (S (S O)); sts = []; eds = []; cur = (Some O); loops =
+      []; excs = [] }
+  in
+  fold_left (fun st0 r -> append (LAsg ((fst r), (snd r))) st0) args st
+
+(** val build : bool -> nref list -> stmt -> bst **)
+
+let build fx args body =
+  link_cur (S O) (visit fx body (st_init args))
+
+(** val block_stats : bst -> nat -> lstat list **)
+
+let block_stats st b =
+  rev (map snd (filter (fun p -> Nat.eqb (fst p) b) st.sts))
+
+(** val edges_at_end : bst -> bool **)
+
+let edges_at_end st =
+  forallb (fun e -> let (y, _) = e in let (u, k) = y in Nat.eqb k (len st u))
+    st.eds
+
+(** val reach_step : bst -> nat list -> nat list **)
+
+let reach_step st r =
+  fold_left (fun acc e ->
+    let (y, v) = e in
+    let (u, _) = y in
+    if (&&) (existsb (Nat.eqb u) acc) (negb (existsb (Nat.eqb v) acc))
+    then v :: acc
+    else acc) st.eds r
+
+(** val reach_iter : nat -> bst -> nat list -> nat list **)
+
+let rec reach_iter n0 st r =
+  match n0 with
+  | O -> r
+  | S m -> reach_iter m st (reach_step st r)
+
+(** val closed_b : bst -> nat list -> bool **)
+
+let closed_b st r =
+  (&&) (existsb (Nat.eqb O) r)
+    (forallb (fun e ->
+      let (y, v) = e in
+      let (u, _) = y in
+      (||) (negb (existsb (Nat.eqb u) r)) (existsb (Nat.eqb v) r)) st.eds)
+
+(** val reachable : bst -> nat -> bool **)
+
+let reachable st =
+  let r = reach_iter st.nb st (O :: []) in
+  (fun b -> if closed_b st r then existsb (Nat.eqb b) r else true)
+
+(** val to_stat : lstat -> stat **)
+
+let to_stat = function
+| LRef (_, e) -> SRef e
+| LAsg (_, e) -> SAssign e
+| LDel (_, e) -> SDel e
+
+(** val cfg_of : nat -> bst -> cfg **)
+
+let cfg_of ne st =
+  let r = reachable st in
+  { c_ne = ne; c_closure = (repeat false ne); c_static = (repeat false ne);
+  c_blocks =
+  (map (fun b ->
+    if r b
+    then { b_parents =
+           (map (fun e -> fst (fst e))
+             (filter (fun e -> (&&) (Nat.eqb (snd e) b) (r (fst (fst e))))
+               st.eds)); b_stats = (map to_stat (block_stats st b));
+           b_bounded = [] }
+    else { b_parents = []; b_stats = []; b_bounded = [] }) (seq O st.nb)) }
+
+(** val cls_at : nat -> bst -> result -> nat -> nat -> cls option **)
+
+let cls_at _ st r b k =
+  if reachable st b then Some (nth k (nth b r.res_cls []) Bound) else None
+
+(** val wf : bool -> stmt -> bool **)
+
+let rec wf inl = function
+| Seq (a, b) -> (&&) (wf inl a) (wf inl b)
+| If (_, th, _, el) -> (&&) (wf inl th) (wf inl el)
+| Loop (_, _, _, body, _, el) -> (&&) (wf true body) (wf inl el)
+| Try (body, _, el, hs) -> (&&) ((&&) (wf inl body) (wf inl el)) (wf_h inl hs)
+| TryFin (body, fexc, fnorm) ->
+  (&&) ((&&) (wf inl body) (wf inl fexc)) (wf inl fnorm)
+| Break -> inl
+| Continue -> inl
+| _ -> true
+
+(** val wf_h : bool -> handlers -> bool **)
+
+and wf_h inl = function
+| HNil -> true
+| HCons (_, _, _, _, hb, rest) -> (&&) (wf inl hb) (wf_h inl rest)
+
+(** val run_cfg : bool -> nat -> nref list -> stmt -> bst * result option **)
+
+let run_cfg fx ne args body =
+  let st = build fx args body in (st, (analyse (cfg_of ne st)))
